@@ -48,7 +48,7 @@ type Spec struct {
 // Cand is a validly built and signed change that differs from the step's valid change in
 // the authorisation dimensions named by Dim.
 type Cand struct {
-	Dim    string `json:"dim"` // author | acl | both
+	Dim    string `json:"dim"` // author | acl | both | backdate (demoted writer citing an older record where it could write)
 	Author int    `json:"au"`  // any account, modulo N (N-1 is never a member)
 	Acl    int    `json:"acl"` // modulo nrec+2: a record of the history, nrec = unknown id, nrec+1 = empty id
 	Batch  int    `json:"batch"`
@@ -92,13 +92,14 @@ type Case struct {
 	RootAt   int         `json:"root_at"` // the tree root cites record RootAt mod (prefix+1)
 	Prefix   int         `json:"prefix"`  // local ACL list starts with records[0..Prefix mod nrec]; <0: all
 	Derived  bool        `json:"derived"`
+	CV       bool        `json:"cv,omitempty"` // tree built with a content validator (accept-all), as the settings tree is
 	Steps    []Step      `json:"steps"`
 }
 
-var mutKinds = []string{"flip", "flip", "flip_rehash", "flip_rehash", "id", "sig", "ident", "field", "nosig", "fake_derived", "trunc"}
+var mutKinds = []string{"flip", "flip", "flip_rehash", "flip_rehash", "id", "reenc", "reenc", "sig", "ident", "field", "nosig", "fake_derived", "trunc"}
 
 // every alteration kind that can keep the original's id
-var orphKinds = []string{"flip", "flip", "sig", "ident", "field", "nosig", "trunc", "fake_derived", "other"}
+var orphKinds = []string{"flip", "reenc", "reenc", "sig", "ident", "field", "nosig", "trunc", "fake_derived", "other"}
 
 // genOps draws an ACL history over the unambiguous alphabet {add writer/reader/admin,
 // permission change, remove, re-add}, every op issued by the owner (account 0) and legal
@@ -164,6 +165,7 @@ func genCase(rt *rapid.T) Case {
 		RootAt:   rapid.SampledFrom([]int{0, 0, 0, 1, 2, 3, 5}).Draw(rt, "root_at"),
 		Prefix:   rapid.SampledFrom([]int{-1, -1, -1, -1, 1, 2, 3, 4, 5, 6, 7}).Draw(rt, "prefix"),
 		Derived:  rapid.IntRange(0, 7).Draw(rt, "derived") == 0,
+		CV:       rapid.IntRange(0, 2).Draw(rt, "cv") == 0,
 	}
 	ns := rapid.IntRange(2, vstat.Pick(5, 8)).Draw(rt, "nsteps")
 	for s := 0; s < ns; s++ {
@@ -171,7 +173,7 @@ func genCase(rt *rapid.T) Case {
 		nc := rapid.IntRange(1, vstat.Pick(6, 10)).Draw(rt, "ncands")
 		for i := 0; i < nc; i++ {
 			st.Cands = append(st.Cands, Cand{
-				Dim:    rapid.SampledFrom([]string{"author", "author", "author", "acl", "acl", "acl", "both"}).Draw(rt, "dim"),
+				Dim:    rapid.SampledFrom([]string{"author", "author", "author", "acl", "acl", "acl", "both", "backdate"}).Draw(rt, "dim"),
 				Author: rapid.IntRange(0, n-1).Draw(rt, "cau"),
 				Acl:    rapid.IntRange(0, 12).Draw(rt, "cacl"),
 				Batch:  rapid.SampledFrom([]int{0, 0, 1, 2, 3}).Draw(rt, "cbatch"),
@@ -323,7 +325,7 @@ func TestRegRoles(t *testing.T) {
 				st.Cands = append(st.Cands, Cand{Dim: "both", Author: a, Acl: r, Batch: (a + r) % 3, Pos: r % 3, Desc: (a+r)%5 == 0})
 			}
 		}
-		for i, k := range []string{"id", "id", "id", "sig", "ident", "ident", "field", "field", "field", "field", "field", "field", "field", "field", "nosig", "fake_derived", "trunc"} {
+		for i, k := range []string{"reenc", "reenc", "reenc", "reenc", "reenc", "id", "id", "id", "sig", "ident", "ident", "field", "field", "field", "field", "field", "field", "field", "field", "nosig", "fake_derived", "trunc"} {
 			st.Muts = append(st.Muts, Mut{Kind: k, A: i, B: 1 + i, Batch: i % 3, Pos: i % 2})
 		}
 		c.Steps = append(c.Steps, st)
@@ -332,6 +334,9 @@ func TestRegRoles(t *testing.T) {
 	c.Derived = true
 	vstat.One(t, prop, c, run)
 	c.Derived = false
+	c.CV = true
+	vstat.One(t, prop, c, run)
+	c.CV = false
 	c.Prefix = 3
 	c.Steps[1].Grow = 2
 	vstat.One(t, prop, c, run)
